@@ -591,8 +591,18 @@ class BaseClientHandler:
         # If it is any other input we raise a bad syntax error.
         #
         await self.client.push("+ idling\r\n")
-        await self.send_pending_notifications()
+
+        # NOTE: We are idling from before the pending notifications are sent,
+        #       as in do_expunge(): while they are being pushed to a slow
+        #       client other commands go on producing notifications. Those
+        #       have to go out behind the pending ones - not onto a new pending
+        #       list that is only looked at when the IDLE is over, while
+        #       everything that happens after it goes out at once: EXPUNGEs
+        #       reached the client in another order than they were applied,
+        #       and its message numbers were wrong from then on.
+        #
         self.idling = True
+        await self.send_pending_notifications()
         return False
 
     #########################################################################
